@@ -1,5 +1,6 @@
 import Hcl.Model.Dump
 import Hcl.Spec.DumpFormat
+import Hcl.Proofs.MemSorted
 
 /-!
 # C16 — the state dump shows the true machine state, completely and parseably
@@ -55,3 +56,64 @@ theorem C16_hex_roundtrip (n : Nat) (h : n < 2 ^ 128) : parseHex (toHex n).toLis
     | cons _ _ => rfl
   simp only [this, Bool.false_eq_true, ↓reduceIte]
   exact hexDigits_roundtrip 40 n hlt
+
+theorem zeros_fold : ∀ (k : Nat) (ds : List Char), (List.replicate k '0' ++ ds).foldlM hexStep 0 = ds.foldlM hexStep 0
+  | 0, ds => rfl
+  | k + 1, ds => by
+    rw [List.replicate_succ, List.cons_append, List.foldlM_cons]
+    have : hexStep 0 '0' = some 0 := by decide
+    rw [this]
+    exact zeros_fold k ds
+
+/-- `{:0w$x}` of any 128-bit number, at any width, reads back as that number (bank registers, memory bytes, row labels) -/
+theorem C16_hexpad_roundtrip (w n : Nat) (h : n < 2 ^ 128) : parseHex (toHexPad w n).toList = some n := by
+  have hlt : n < 16 ^ 40 := Nat.lt_of_lt_of_le h (by decide)
+  have hne := hexDigits_ne_nil 40 n (by decide)
+  unfold parseHex toHexPad padLeft
+  simp only [String.toList_ofList]
+  have : (List.replicate (w - (hexDigits 40 n).length) '0' ++ hexDigits 40 n).isEmpty = false := by
+    cases hd : hexDigits 40 n with
+    | nil => exact absurd hd hne
+    | cons _ _ => simp
+  simp only [this, Bool.false_eq_true, ↓reduceIte]
+  exact (zeros_fold _ _).trans (hexDigits_roundtrip 40 n hlt)
+
+/-! ### the memory section -/
+
+open Dump in
+/-- the text of the memory section is the header line followed by the texts of the tokens of the walk -/
+theorem C16_memory_text (m : Mem) : Dump.memory m = Dump.memHeader ++ String.join ((Dump.memToks m).map MTok.text) := rfl
+
+/-- **what the walk prints**, for every sorted memory (any set of used addresses below 2^64: sparse, unaligned first
+    address, rows far apart, the top of the address space): the row label of the first used address, then key by key the
+    empty cells up to it -- completing the row and labelling the key's own row when it lies in a later row -- and its own
+    cell, then the empty cells that complete the last row -/
+theorem C16_memory_tokens (m : Mem) (h : SortedFrom 0 m) : Dump.memToks m = Dump.specToks m :=
+  Dump.memToks_spec m h.sorted
+
+/-- **every used byte is shown at its own address and nothing else is**: reading the tokens back -- a byte shown in
+    column `i` of the row labelled `r` is the byte at address `16 r + i` -- gives exactly the memory -/
+theorem C16_memory_roundtrip (m : Mem) (h : SortedFrom 0 m) (r : Nat) : Dump.readToks (Dump.memToks m) r = m :=
+  Dump.read_memToks m h.sorted r
+
+/-- **16-byte rows**: the tokens are a sequence of complete rows, each a label followed by the cells 0, 1, .., 15 -/
+theorem C16_memory_rows (m : Mem) (h : SortedFrom 0 m) : Dump.runRows none (Dump.memToks m) = some none :=
+  Dump.rows_memToks m h.sorted
+
+/-- **the hypothesis holds of every memory the simulator can be in**: the image the loader accepts is sorted, and every
+    cycle keeps it so -/
+theorem C16_memory_reachable (fl : Flags) (p : Program) (lines : List Bytes) (m : Mem) (s₀ t : State) (n : Nat)
+    (hl : Yo.load lines = .ok m) (hi : State.init p m = .ok s₀) (hr : runN fl p n s₀ = .ok t) : SortedFrom 0 t.mem := by
+  have h0 : SortedFrom 0 s₀.mem := by
+    unfold State.init at hi
+    obtain ⟨v, _, hi⟩ := bind_ok hi
+    simp only [pure, Except.pure, Except.ok.injEq] at hi
+    rw [← hi]
+    exact Yo.load_sorted lines m hl
+  exact runN_mem_sorted fl p n s₀ t h0 hr
+
+/-! non-vacuity: a sparse memory with an unaligned first address, two bytes in one row, a row far away and the last byte
+    of the address space -/
+def exMem : Mem := [(5, 1), (7, 2), (4096, 3), (2 ^ 64 - 1, 255)]
+example : SortedFrom 0 exMem := by unfold exMem SortedFrom SortedFrom SortedFrom SortedFrom SortedFrom U64; decide
+example : (Dump.memToks exMem).length = 3 * 17 := by decide
